@@ -479,8 +479,13 @@ static const struct kdump_bmp_ops mem_pagemap_ops = {
 };
 
 
+/** Revalidate the memory pagemap with the cache lock held.
+ * @param ctx   Dump file object.
+ * @param attr  Memory pagemap attribute.
+ * @returns     Error status.
+ */
 static kdump_status
-mem_pagemap_revalidate(kdump_ctx_t *ctx, struct attr_data *attr)
+mem_pagemap_revalidate_locked(kdump_ctx_t *ctx, struct attr_data *attr)
 {
 	struct sadump_priv *sp = ctx->shared->fmtdata;
 	attr_revalidate_fn *parent_revalidate;
@@ -519,6 +524,28 @@ mem_pagemap_revalidate(kdump_ctx_t *ctx, struct attr_data *attr)
 		attr->flags.invalid = 0;
 	}
 	return ret;
+}
+
+/** Revalidate the memory pagemap.
+ * @param ctx   Dump file object.
+ * @param attr  Memory pagemap attribute.
+ * @returns     Error status.
+ *
+ * Attributes are revalidated under the shared read lock, so other clones
+ * may be using the file cache, or revalidating this very attribute, at
+ * the same time. The cache lock serializes both.
+ */
+static kdump_status
+mem_pagemap_revalidate(kdump_ctx_t *ctx, struct attr_data *attr)
+{
+	kdump_status status;
+
+	mutex_lock(&ctx->shared->cache_lock);
+	status = attr->flags.invalid
+		? mem_pagemap_revalidate_locked(ctx, attr)
+		: KDUMP_OK;
+	mutex_unlock(&ctx->shared->cache_lock);
+	return status;
 }
 
 static kdump_status
